@@ -101,6 +101,9 @@ def replay_linear_merge(cex):
 
 
 def replay(cex):
+    if cex.get("kind") == "w":
+        from engine import wrun
+        return wrun.replay_generic(cex)
     if cex.get("kind") == "linear-merge":
         return replay_linear_merge(cex)
     return logm.replay(cex)
@@ -115,6 +118,9 @@ def main():
     obs = [common.Ob(f"linear merge == saturating cell-wise sum, {d}x{w}", ob_linear_merge, (w, d, tmo), hard_s=tmo / 1000 * 8 + 120, bounds={"width": w, "depth": d, "tables": "arbitrary"}) for (w, d) in shapes]
     lobs, lbounds, lstubs, loutside = logm.c09_obligations(tier)
     obs += lobs
+    from engine import wrun
+    wobs, wmeta = wrun.obligations("c09", tier)
+    obs += wobs
     results = common.run_obligations(obs, progress=os.environ.get("VERIF_VERBOSE") == "1")
     funcs = set()
     for r in results:
